@@ -91,13 +91,18 @@ def search(ctx):
             m, x = rand_mx(rng, xmax)
             if i % 3 == 0:
                 m = complex(m.real, 0.0)
-            layered = (i % 7 == 6)
+            layered = (i % 7 in (5, 6))
             nm = float(rng.uniform(1, 1.5))
             wl = float(rng.uniform(0.4, 0.8))
             kw = 2 * math.pi / (wl / nm)
             if layered:
-                x = max(x, 0.1)
-                sc = Sphere(n=[m * nm, complex(rng.uniform(1.4, 1.7), m.imag) ], r=[0.6 * x / kw, x / kw])
+                # 2-5 layers with DIFFERENT indices (all real when m is real: then absorption must vanish exactly as for one layer)
+                x = min(max(x, 0.1), 40.0)
+                nl = int(rng.integers(2, 6))
+                fr = np.sort(rng.uniform(0.15, 1.0, size=nl))
+                fr[-1] = 1.0
+                ns = [m * nm] + [complex(float(rng.uniform(1.35, 1.7)), m.imag if rng.random() < 0.5 else 0.0) for _ in range(nl - 1)]
+                sc = Sphere(n=ns, r=[float(f) * x / kw for f in fr])
             else:
                 sc = Sphere(n=m * nm, r=x / kw)
             pol = T.rand_pol(rng)
@@ -114,6 +119,9 @@ def search(ctx):
                 ctx.violation("C03:abs-negative", "absorption cross section negative (%g of extinction)" % (cabs / cext), info)
             if m.imag == 0 and not layered and abs(cabs) > 1e-9 * cext:
                 ctx.violation("C03:abs-real-index", "absorption does not vanish for a real index (%g of extinction)" % (cabs / cext), info)
+            if layered and all(np.imag(v) == 0 for v in sc.n) and abs(cabs) > 1e-7 * cext:
+                ctx.violation("C03:abs-real-index:layered", "absorption of a sphere made of %d real-index layers does not vanish (%g of extinction)" % (len(sc.n), cabs / cext),
+                              dict(info, n=[cx(v) for v in sc.n], r=[float(v) for v in sc.r]))
             if not csca > 0:
                 ctx.violation("C03:sca-positive", "scattering cross section not positive", info)
             if not (-1 - 1e-12 <= g <= 1 + 1e-12):
